@@ -1,6 +1,9 @@
 package props
 
-import "astverif/ownership"
+import (
+	"astverif/demuxrules"
+	"astverif/ownership"
+)
 
 func init() { register("C16", "other", c16) }
 
@@ -26,4 +29,9 @@ func c16(c *Ctx) {
 	ownership.AccumulatorAlias(c.P, r)
 	ownership.MuxerPayload(c.P, r)
 	ownership.Globals(c.P, r, "globals")
+	// "instances produce exactly the results they produce when run alone": the pooled concatenation buffer is shared by all
+	// demuxers of the process, so every byte of it that the parsers read must have been written by THIS call — the
+	// concatenation copies every payload of the group, in order, completely (R8 of C02); a skipped payload leaves the bytes of
+	// whoever used the pool item before
+	demuxrules.New(c.P, r).AssembledPayload()
 }
